@@ -351,7 +351,7 @@ def _const(v, w):
     if c is None:
         if len(_CONSTS) > 50000:
             _CONSTS.clear()
-        c = _CONSTS[k] = SymInt(z3.BitVecVal(v, w), v, v, w)
+        c = _CONSTS[k] = SymInt(z3.BitVecVal(v, w) if w else z3.IntVal(v), v, v, w)
     return c
 
 
@@ -366,8 +366,8 @@ class SymInt:
             # empty interval: the path is infeasible (or will be found so)
             lo, hi = hi, lo
         if w is None:
-            w = e.size()
-        if _bits(lo, hi) > w - 1:
+            w = e.size() if z3.is_bv(e) else 0
+        if w and _bits(lo, hi) > w - 1:
             raise Unmodelled('integer magnitude beyond the %d-bit guard (%d..%d)'
                              % (w, lo, hi))
         self.e = e
@@ -393,11 +393,11 @@ class SymInt:
         if isinstance(o, bool):
             o = int(o)
         if isinstance(o, int):
-            w = width or (CUR.width if CUR is not None else W)
+            w = (CUR.width if CUR is not None else W) if width is None else width
             return _const(o, w)
         if isinstance(o, SymBool):
-            w = width or (CUR.width if CUR is not None else W)
-            return SymInt(z3.If(o.e, z3.BitVecVal(1, w), z3.BitVecVal(0, w)), 0, 1)
+            w = (CUR.width if CUR is not None else W) if width is None else width
+            return SymInt(z3.If(o.e, _const(1, w).e, _const(0, w).e), 0, 1, w)
         return None
 
     def _lift(self, o):
@@ -453,7 +453,10 @@ class SymInt:
         if bool(o == 0):
             raise ZeroDivisionError('integer division or modulo by zero')
         a, b = self.rng(), o.rng()
-        # z3py: % on BitVec is bvsmod (sign follows the divisor) == Python %
+        if not self.w and not b[0] > 0:
+            raise Unmodelled('integer-sort division by a divisor that is not provably positive')
+        # z3py: % on BitVec is bvsmod (sign follows the divisor) == Python %;
+        # on Int, mod/div by a positive divisor are Python's % and //
         r = self.e % o.e
         q = (self.e - r) / o.e      # exact, so truncating bvsdiv == floor
         if b[0] > 0:
@@ -527,6 +530,8 @@ class SymInt:
         if o < 0:
             raise ValueError('negative shift count')
         lo, hi = self.rng()
+        if not self.w:
+            return SymInt(self.e * (1 << o), lo << o, hi << o, 0)
         return SymInt(self.e << o, lo << o, hi << o)
 
     def __rlshift__(self, o):
@@ -538,6 +543,8 @@ class SymInt:
         if o < 0:
             raise ValueError('negative shift count')
         lo, hi = self.rng()
+        if not self.w:
+            return SymInt(self.e / (1 << o), lo >> o, hi >> o, 0)     # Int div by a positive constant = floor
         if o >= self._w():
             o = self._w() - 1
         return SymInt(self.e >> o, lo >> o, hi >> o)   # z3py >> is arithmetic
@@ -555,6 +562,8 @@ class SymInt:
         if o is None:
             return NotImplemented
         a, b = self.rng(), o.rng()
+        if not self.w:
+            return self._int_and(o, a, b)
         if b[0] >= 0 and a[0] >= 0:
             lo, hi = 0, min(a[1], b[1])
         elif b[0] >= 0:
@@ -566,11 +575,40 @@ class SymInt:
         return SymInt(self.e & o.e, lo, hi)
     __rand__ = __and__
 
+    def _int_and(self, o, a, b):
+        """x & (2**k - 1) on the integer sort = x mod 2**k."""
+        for x, m in ((self, b), (o, a)):
+            if m[0] == m[1] and m[0] >= 0 and (m[0] & (m[0] + 1)) == 0:
+                if m[0] == 0:
+                    return _const(0, 0)
+                return SymInt(x.e % (m[0] + 1), 0, m[0], 0)
+        for x, m in ((self, b), (o, a)):
+            # x & ~(2**k - 1) for small non-negative x below 2**k ... not needed; refuse
+            pass
+        raise Unmodelled('bitwise and on the integer sort (only masks 2**k-1 are modelled)')
+
+    def _int_or(self, o, a, b):
+        """x | c on the integer sort when the operands provably share no bit: x + c."""
+        for x, xr, c in ((self, a, b), (o, b, a)):
+            if c[0] == c[1] and c[0] >= 0 and xr[0] >= 0:
+                cv = c[0]
+                if cv == 0:
+                    return x
+                low = (cv & -cv)            # lowest set bit of the constant
+                if xr[1] < low:
+                    return SymInt(x.e + cv, xr[0] + cv, xr[1] + cv, 0)
+        if a[0] >= 0 and b[0] >= 0:
+            # two ranges [0, 2**i * m) with disjoint bit positions are not tracked: refuse
+            pass
+        raise Unmodelled('bitwise or on the integer sort (only provably disjoint constant bits are modelled)')
+
     def __or__(self, o):
         o = self._lift(o)
         if o is None:
             return NotImplemented
         a, b = self.rng(), o.rng()
+        if not self.w:
+            return self._int_or(o, a, b)
         lo, hi = self._bitrng(a, b)
         if a[0] >= 0 and b[0] >= 0:
             lo = max(a[0], b[0])
@@ -586,6 +624,8 @@ class SymInt:
         if o is None:
             return NotImplemented
         a, b = self.rng(), o.rng()
+        if not self.w:
+            raise Unmodelled('bitwise xor on the integer sort')
         lo, hi = self._bitrng(a, b)
         if a[0] >= 0 and b[0] >= 0:
             lo = 0
@@ -594,6 +634,8 @@ class SymInt:
 
     def __invert__(self):
         lo, hi = self.rng()
+        if not self.w:
+            return SymInt(-self.e - 1, -hi - 1, -lo - 1, 0)
         return SymInt(~self.e, -hi - 1, -lo - 1)
 
     def bit_length(self):
@@ -700,7 +742,7 @@ class SymInt:
                 if v is None:
                     raise Unmodelled('replay desynchronised at a realisation point (non-deterministic harness?)')
             else:
-                v = ex.get_model().eval(self.e, model_completion=True).as_signed_long()
+                v = z3_to_py(ex.get_model().eval(self.e, model_completion=True))
                 ex.stats['realisations'] += 1
             if ex.fork(self.e == v, aux=v, refine=((self.id, (v, v)), None)):
                 return v
